@@ -3,6 +3,8 @@
 package pp
 
 import (
+	"strings"
+
 	"github.com/ohler55/slip"
 )
 
@@ -16,7 +18,8 @@ type Doc struct {
 
 func (doc *Doc) layout(left int) int {
 	doc.x = left
-	doc.wide = len([]rune(doc.text)) + 2
+	// Double quotes and backslashes are written with an escape.
+	doc.wide = len([]rune(doc.text)) + 2 + strings.Count(doc.text, `"`) + strings.Count(doc.text, `\`)
 
 	return doc.wide
 }
@@ -30,7 +33,7 @@ func (doc *Doc) reorg(edge int) int {
 
 func (doc *Doc) adjoin(b []byte) []byte {
 	b = append(b, '"')
-	b = slip.AppendDoc(b, doc.text, doc.x+1, doc.x+doc.wide, false, 0)
+	b = slip.AppendCodeDoc(b, doc.text, doc.x+1, doc.x+doc.wide, 0)
 
 	return append(b, '"')
 }
